@@ -138,6 +138,25 @@ def make_scenarios(rng, tier, focus, count):
             sched = {"seed": rng.randrange(1 << 30), "codes": codes, "fail_launch": [], "p_exit": 0.9,
                      "p_deliver": rng.choice([0.05, 0.1, 0.2]), "allow_steal": focus == "reap", "allow_late": focus == "reap"}
             stop = False
+            if focus == "fail" and rng.random() < 0.5:
+                # ... under --stop-early, with fewer slots than roots: a root is still waiting for a slot when a failure and a
+                # success are collected together (nothing may be started once the failure has been observed)
+                stop = True
+                jobs = max(2, w - 1)
+        if focus in ("deps", "fail") and k % 10 == 8:
+            # a failure reaching a task THROUGH a group: g = group(b1, b2), a depends on g, u is unrelated and keeps running;
+            # b1 fails, b2 succeeds, in either completion order
+            kk4 = lambda: rng.choice(["exp", "cmd"])
+            n = 6
+            g = {"n": 6, "target": 6, "deps": [[], [], [], rng.sample([1, 2], 2), [4], rng.sample([5, 3], 2)],
+                 "kind": [kk4(), kk4(), kk4(), "group", kk4(), "group"], "par": [True, True, True, False, rng.random() < 0.5, False],
+                 "cachedTs": [0] * 6, "stale": [False] * 6, "again": False, "atLeast": False, "now": 1000, "lastTs0": 0}
+            jobs = rng.choice([3, 3, 4])
+            stop = False
+            pkgs = RC.PLACEMENTS[k % len(RC.PLACEMENTS)][:n]
+            failing = rng.choice([1, 2])
+            sched = {"seed": rng.randrange(1 << 30), "codes": {RC.ident_of(pkgs, failing): rng.choice([1, 2, {"signal": 9}])}, "fail_launch": [],
+                     "p_exit": rng.choice([0.15, 0.3]), "p_deliver": rng.choice([0.5, 0.9]), "allow_steal": False}
         if focus == "reap" and rng.random() < 0.3:
             sched["unrelated"] = True
         if focus in ("slots", "reap") and k % 4 == 1:
